@@ -99,10 +99,23 @@ func debugLogs(class string) string {
 }
 
 type faultSpec struct {
-	Kind  string `json:"kind"` // eof | ioerr | corrupt | bitflip
+	Kind  string `json:"kind"` // eof | ioerr | corrupt | bitflip | lowzero
 	At    int64  `json:"at"`   // byte offset of the server-to-client stream (after the hello unless Hello is set)
 	Hello bool   `json:"hello"`
 	Mask  int    `json:"mask"` // bitflip: the bit(s) inverted at that offset (0 = the lowest bit)
+}
+
+// corruptByte applies a corrupt / bitflip / lowzero fault to one byte.
+func (f *faultSpec) corruptByte(b byte) byte {
+	switch f.Kind {
+	case "corrupt":
+		return b ^ 0xff
+	case "bitflip":
+		return b ^ f.flipMask()
+	case "lowzero":
+		return b & 0xe0
+	}
+	return b
 }
 
 // flipMask is the mask a bitflip fault applies.
@@ -1691,7 +1704,7 @@ func runClientScenario(sc scenario, res *result) {
 	// the stream always ends eventually
 	if !outClosed {
 		w.s.WaitSettled(stepTimeout)
-		if sc.Fault != nil && !sc.Fault.Hello && (sc.Fault.Kind == "corrupt" || sc.Fault.Kind == "bitflip") {
+		if sc.Fault != nil && !sc.Fault.Hello && (sc.Fault.Kind == "corrupt" || sc.Fault.Kind == "bitflip" || sc.Fault.Kind == "lowzero") {
 			res.StreamVerdict = independentStream(fs.stream, sc.Fault, version)
 			w.mu.Lock()
 			for id, e := range w.res {
@@ -1769,6 +1782,9 @@ func applyFault(p *sched.Pipe, f *faultSpec, base int64) {
 	case "bitflip":
 		p.FlipAt = base + f.At
 		p.FlipMask = f.flipMask()
+	case "lowzero":
+		p.FlipAt = base + f.At
+		p.FlipLowZero = true
 	}
 }
 
@@ -1778,11 +1794,7 @@ func applyFault(p *sched.Pipe, f *faultSpec, base int64) {
 func independentStream(stream []byte, f *faultSpec, version int64) string {
 	b := append([]byte{}, stream...)
 	if f.At >= 0 && f.At < int64(len(b)) {
-		m := byte(0xff)
-		if f.Kind == "bitflip" {
-			m = f.flipMask()
-		}
-		b[f.At] ^= m
+		b[f.At] = f.corruptByte(b[f.At])
 	}
 	strict, err := cbor.DecOptions{ExtraReturnErrors: cbor.ExtraDecErrorUnknownField}.DecMode()
 	if err != nil {
@@ -1832,13 +1844,9 @@ func independentDecode(frames [][]byte, f *faultSpec, version int64) []string {
 				if f.At < end {
 					continue // cut before the end of this message
 				}
-			case "corrupt":
+			case "corrupt", "bitflip", "lowzero":
 				if f.At >= start && f.At < end {
-					b[f.At-start] ^= 0xff
-				}
-			case "bitflip":
-				if f.At >= start && f.At < end {
-					b[f.At-start] ^= f.flipMask()
+					b[f.At-start] = f.corruptByte(b[f.At-start])
 				}
 			}
 		}
